@@ -455,6 +455,9 @@ const CANARY: u8 = 0xA7;
 
 pub struct Arena {
     mem: Vec<u8>,
+    /// 0..8: where in the arena the caller's slice starts changes from call to call, so that nothing
+    /// can come to depend on the alignment of the buffer the caller happens to pass
+    shift: usize,
 }
 
 /// Interpreter-only mode: hand the library a buffer whose bytes have never been initialised, so that
@@ -465,19 +468,20 @@ pub static UNINIT_BUFFERS: std::sync::atomic::AtomicBool = std::sync::atomic::At
 impl Arena {
     pub fn new() -> Arena {
         Arena {
-            mem: vec![0u8; GUARD + CAP + GUARD],
+            mem: vec![0u8; 8 + GUARD + CAP + GUARD],
+            shift: 0,
         }
     }
     /// Overwrite the reusable region with a pattern (the "previous user left this" fault).
     pub fn poison(&mut self, pat: u8) {
-        for b in &mut self.mem[GUARD..GUARD + CAP] {
+        for b in &mut self.mem[GUARD..8 + GUARD + CAP] {
             *b = pat;
         }
     }
     fn arm(&mut self, len: usize) {
         assert!(len <= CAP);
         if UNINIT_BUFFERS.load(std::sync::atomic::Ordering::Relaxed) {
-            let n = GUARD + CAP + GUARD;
+            let n = 8 + GUARD + CAP + GUARD;
             let mut v: Vec<u8> = Vec::with_capacity(n);
             // deliberately uninitialised (see UNINIT_BUFFERS); only ever read after being written
             #[allow(clippy::uninit_vec)]
@@ -486,23 +490,27 @@ impl Arena {
             };
             self.mem = v;
         }
-        for b in &mut self.mem[..GUARD] {
+        self.shift = (self.shift + 3) % 8;
+        let s = self.shift;
+        for b in &mut self.mem[s..s + GUARD] {
             *b = CANARY;
         }
-        for b in &mut self.mem[GUARD + len..GUARD + len + GUARD] {
+        for b in &mut self.mem[s + GUARD + len..s + GUARD + len + GUARD] {
             *b = CANARY;
         }
     }
     fn buf(&mut self, len: usize) -> &mut [u8] {
-        &mut self.mem[GUARD..GUARD + len]
+        let s = self.shift;
+        &mut self.mem[s + GUARD..s + GUARD + len]
     }
     fn damaged(&self, len: usize) -> Option<isize> {
-        for (i, &b) in self.mem[..GUARD].iter().enumerate().rev() {
+        let s = self.shift;
+        for (i, &b) in self.mem[s..s + GUARD].iter().enumerate().rev() {
             if b != CANARY {
                 return Some(i as isize - GUARD as isize);
             }
         }
-        for (i, &b) in self.mem[GUARD + len..GUARD + len + GUARD].iter().enumerate() {
+        for (i, &b) in self.mem[s + GUARD + len..s + GUARD + len + GUARD].iter().enumerate() {
             if b != CANARY {
                 return Some((len + i) as isize);
             }
